@@ -72,10 +72,18 @@ def classes():
             @classmethod
             def render_db(cls, db):
                 return 'TAGDBML:db:' + '|'.join(cls.render(t) for t in db.tables)
-        for C, tag in ((TagSQL, 'TAGSQL'), (TagDBML, 'TAGDBML'), (DerivedSQL, 'TAGSQL'), (DerivedDBML, 'TAGDBML')):
+        # ... and subclasses that INHERIT render_db from the default renderer: the database text is then the default layout of
+        # what THIS class renders for each element (tags for tables and enums, nothing for the rest)
+        class InheritSQL(DefaultSQLRenderer):
+            model_renderers = {}
+
+        class InheritDBML(DefaultDBMLRenderer):
+            model_renderers = {}
+        for C, tag in ((TagSQL, 'TAGSQL'), (TagDBML, 'TAGDBML'), (DerivedSQL, 'TAGSQL'), (DerivedDBML, 'TAGDBML'),
+                       (InheritSQL, 'TAGSQL'), (InheritDBML, 'TAGDBML')):
             C.renderer_for(Table)(lambda m, tag=tag: '%s:Table:%s.%s' % (tag, m.schema, m.name))
             C.renderer_for(Enum)(lambda m, tag=tag: '%s:Enum:%s.%s' % (tag, m.schema, m.name))
-        _CLASSES = ((TagSQL, TagDBML), (DerivedSQL, DerivedDBML))
+        _CLASSES = ((TagSQL, TagDBML), (DerivedSQL, DerivedDBML), (InheritSQL, InheritDBML))
     return _CLASSES
 
 
@@ -87,7 +95,8 @@ def _exec_chunk(items):
     out = []
     for it in items:
         cfg = it['cfg']
-        TagSQL, TagDBML = classes()[it['tid'] % 2]        # alternately derived from BaseRenderer and from the default renderers
+        TagSQL, TagDBML = classes()[it['tid'] % 3]        # derived from BaseRenderer / from the default renderers / the latter with render_db inherited
+        inherit = it['tid'] % 3 == 2
         kw = {'sql_renderer': TagSQL if cfg['sql'] == 'custom' else DefaultSQLRenderer,
               'dbml_renderer': TagDBML if cfg['dbml'] == 'custom' else DefaultDBMLRenderer}
         if it['route'] == 'built':
@@ -144,6 +153,12 @@ def _exec_chunk(items):
             try:
                 text = getattr(o, s['out'])
                 cls = 'custom' if text.startswith('TAG') else ('empty' if text == '' else 'default')
+                if inherit and s['el']['k'] == 'db' and cfg[s['out']] == 'custom':
+                    # inherited render_db: the default LAYOUT (blank lines between elements) around this class's own renderings;
+                    # it is this class's work iff no default statement shows and every table is tagged
+                    own = ('CREATE' not in text and 'Table "' not in text and 'Enum "' not in text and 'Ref ' not in text
+                           and text.count('TAG') >= len(db.tables))
+                    cls = 'custom' if own else 'default'
             except Exception as ex:
                 text, cls = '', 'error:' + type(ex).__name__
             if cls == 'empty':
